@@ -1886,7 +1886,9 @@ impl Term<Name> {
     // This splits [lam fun_name [lam fun_name2 rest ..] ..] into
     // [[lam fun_name lam fun_name2 rest ..]..] thus
     // allowing for some crazy gains from cast_constr_apply_reducer
-    fn split_body_lambda(&mut self) {
+    // `root` is true for the program itself and false for the sub-terms
+    // (arguments, delayed bodies) it recurses into.
+    fn split_body_lambda(&mut self, root: bool) {
         let mut arg_stack = vec![];
         let mut current_term = &mut std::mem::replace(self, Term::Error.force());
         let mut unsat_lams = vec![];
@@ -1901,9 +1903,33 @@ impl Term<Name> {
 
                     let arg = Rc::make_mut(argument);
 
-                    arg.split_body_lambda();
+                    arg.split_body_lambda(false);
 
                     arg_stack.push(Args::Apply(0, std::mem::replace(arg, Term::Error.force())));
+                }
+                // An unapplied lambda is only entered when (and if) it is
+                // called, so lifting it above the arguments collected so far
+                // is only sound when none of them can throw. Otherwise stop
+                // here and leave the lambda below its bindings. At the root
+                // the unapplied lambdas are the parameters of the script,
+                // which is only ever observed fully applied: lifting those is
+                // harmless.
+                Term::Lambda { body, .. }
+                    if !root
+                        && arg_stack.is_empty()
+                        && function_groups.iter().flatten().any(|(_, arg)| {
+                            !matches!(
+                                arg,
+                                Term::Var(_)
+                                    | Term::Constant(_)
+                                    | Term::Delay(_)
+                                    | Term::Lambda { .. }
+                                    | Term::Builtin(_)
+                            )
+                        }) =>
+                {
+                    Rc::make_mut(body).split_body_lambda(false);
+                    break;
                 }
                 Term::Lambda {
                     parameter_name,
@@ -1946,7 +1972,7 @@ impl Term<Name> {
                     arg_stack.push(Args::Force(0));
                 }
                 Term::Delay(term) => {
-                    Rc::make_mut(term).split_body_lambda();
+                    Rc::make_mut(term).split_body_lambda(false);
                     break;
                 }
                 Term::Case { .. } => todo!(),
@@ -3334,7 +3360,7 @@ impl Program<Name> {
     }
 
     pub fn split_body_lambda_reducer(mut self) -> Self {
-        self.term.split_body_lambda();
+        self.term.split_body_lambda(true);
 
         self
     }
